@@ -1,4 +1,5 @@
 import GambitV.Model.Cluster
+import GambitV.Model.Upgma
 import Driver.Proto
 namespace Driver.C17
 open GambitV Driver
@@ -26,6 +27,29 @@ def handle : List String → Option String
     let t ← linkageToTree n rows
     let ds := t.depths.map (fun p => s!"{p.1}:{p.2}")
     pure (expect (",".intercalate ds) realDepths)
+  -- hclust: SciPy's merge sequence (l, r, height = P/Q in the scale of D) replayed in the exact UPGMA model: every merge
+  -- a minimal pair, every height the exact average (relative 1e-9: float64 summation), n-1 rows ending in one cluster;
+  -- where the model meets no tie its own linkage must be the same sequence
+  | ["c17.hclust", n, D, rows] => do
+    let n ← n.toNat?
+    let D ← parseIntLists D
+    let rows ← (if rows == "_" then some [] else (rows.splitOn ";").mapM fun r => match r.splitOn "," with
+      | [a, b, p, q] => do pure ((← a.toNat?), (← b.toNat?), (← String.toInt? p), (← String.toInt? q))
+      | _ => none)
+    if rows.length + 1 ≠ n then return s!"FAIL {rows.length} rows for {n} observations"
+    match replayRun D (rows.map fun x => (x.1, x.2.1)) (upgmaInit n) with
+    | none => pure "FAIL a merge is not a minimal average-linkage pair of active clusters"
+    | some s =>
+      if s.act.length ≠ 1 then return "FAIL does not end in one cluster"
+      let badH := (s.rows.zip rows).filter fun (m, x) =>
+        let P := x.2.2.1; let Q := x.2.2.2
+        !(decide (0 < Q) && decide (absInt (m.num * Q - P * (m.den : Int)) * 1000000000 ≤ absInt (m.num * Q)))
+      if !badH.isEmpty then return s!"FAIL height is not the average distance at row(s) {badH.map fun (m, _) => (m.left, m.right)}"
+      if upgmaTieFree D n then
+        let mine := (upgma D n).map fun m => (min m.left m.right, max m.left m.right, m.num, m.den)
+        let theirs := s.rows.map fun m => (min m.left m.right, max m.left m.right, m.num, m.den)
+        if mine != theirs then return s!"FAIL tie-free matrix: model linkage {mine} differs from {theirs}"
+      pure "ok"
   | _ => none
 
 end Driver.C17
